@@ -32,9 +32,10 @@ ALIASES = {'AbortFailed': 'Abort', 'AbortVoted': 'Abort', 'CheckCurrentQ': 'Chec
            'NewOidQ': 'NewOid', 'PackQ': 'Pack', 'PushQ': 'Push', 'PopQ': 'Pop'}
 # concrete storage kind -> kind of the model ('temp': the demo storage creates its own changes, a MappingStorage)
 KINDS = {'file': 'file', 'mapping': 'mapping', 'fileblob': 'file', 'temp': 'mapping'}
-AS_CODE = dict(TidFromChangesOnly=True, UndoUncreates=True, OidProbeByLoad=True, PackAsCode=True, BlobStoreSkipsBaseCheck=True)
+AS_CODE = dict(TidFromChangesOnly=True, UndoUncreates=True, OidProbeByLoad=True, PackAsCode=True, BlobStoreSkipsBaseCheck=True,
+               PackRevealsBase=True)
 REPAIRED = dict(TidFromChangesOnly=False, UndoUncreates=False, OidProbeByLoad=False, PackAsCode=False,
-                BlobStoreSkipsBaseCheck=False)
+                BlobStoreSkipsBaseCheck=False, PackRevealsBase=False)
 # Blob records: what a connection stores for a ZODB.blob.Blob (class pickle + None state).  The model value of a blob
 # oid lives in the blob file: one JSON line (+ padding); every record of a blob oid goes through storeBlob and is
 # read back through loadBlob / openCommittedBlobFile of the top storage.
@@ -58,6 +59,7 @@ def blob_value(b):
 
 
 BLOB_CAUSE = 'storeBlob-skips-merged-serial-check'
+STALE_CAUSE = 'pack-reveals-lower-revision'
 
 
 class ReplayError(Exception):
@@ -605,7 +607,8 @@ def tla_consts(c):
          'Client': '{' + ', '.join(c['Client']) + '}', 'Cls': '<- ' + c['Cls']}
     for n in ('MaxBase', 'MaxTxn', 'MaxRecs', 'MaxClock', 'K', 'MaxUndo', 'MaxLayers', 'MaxNewOid', 'MaxPack'):
         k[n] = c[n]
-    for n in ('PrintObs', 'TidFromChangesOnly', 'UndoUncreates', 'OidProbeByLoad', 'PackAsCode', 'BlobStoreSkipsBaseCheck'):
+    for n in ('PrintObs', 'TidFromChangesOnly', 'UndoUncreates', 'OidProbeByLoad', 'PackAsCode', 'BlobStoreSkipsBaseCheck',
+              'PackRevealsBase'):
         k[n] = b(c.get(n, AS_CODE.get(n)))
     k['BlobOids'] = '{' + ', '.join(str(o) for o in c.get('BlobOids', ())) + '}'
     k['Temporary'] = b(c['ChangesKind'] == 'temp')
@@ -616,7 +619,7 @@ INVARIANTS = ['TypeOK', 'ConflictAcrossLayers']
 PROPERTIES = ['BaseUnchanged', 'OnlyFinishAndPackWrite', 'AbortRestores', 'UndoInChangesOnly', 'IssuedOrStored', 'PushPop']
 # what only the repaired design satisfies (the code as it is violates them: findings)
 REPAIRED_INVARIANTS = ['DemoObs', 'TidsIncreaseAcrossLayers']
-REPAIRED_PROPERTIES = ['OidFreshBothLayers']
+REPAIRED_PROPERTIES = ['OidFreshBothLayers', 'PackServesNoStaleRevision']
 
 
 def replay_behaviour(job):
@@ -632,6 +635,7 @@ def replay_behaviour(job):
     result = {'steps': 0, 'mismatch': None, 'monitor': [], 'sig': [], 'genuine': [], 'combo': '%s/%s' % (bkind, ckind),
               'demo_txns': 0, 'base_txns': 0, 'max_layers': 1, 'seam_reads': 0, 'tags': []}
     tags = set()
+    prev_real = last_real = None          # the real tables after the previous / this call
     try:
         rp.open()
         for i, step in enumerate(beh):
@@ -668,6 +672,7 @@ def replay_behaviour(job):
                                       'prefix': result['sig'][:i + 1], 'layers': len(layers)}
                 break
             result['steps'] += 1
+            prev_real, last_real = last_real, real
             actions[name + ('@base' if len(layers) == 1 and name not in ('Push', 'Init') else '')] += 1
             if len(layers) > 1:
                 result['max_layers'] = max(result['max_layers'], len(layers))
@@ -683,6 +688,15 @@ def replay_behaviour(job):
                     result['genuine'].append({'cause': 'new_oid-reissues-uncreated-oid', 'step': i,
                                               'prefix': result['sig'][:i + 1],
                                               'detail': ['new_oid() with _next_oid=%d returned oid %d' % (args[0], res['oid'])] + rp.monitor[-2:]})
+            if name == 'Pack' and res.get('stale') and not any(g['cause'] == STALE_CAUSE for g in result['genuine']):
+                # the real storage answers after the pack as the transcription does, and TLC says that these snapshots
+                # are now served a revision they were not served before the pack (the one from the layer below)
+                qs = sorted(tuple(q) for q in res['stale'])
+                tags.add('pack-stale')
+                result['genuine'].append({'cause': STALE_CAUSE, 'step': i, 'prefix': result['sig'][:i + 1], 'detail': [
+                    'after the pack loadBefore(oid %d, tid %d) returns %r; before the pack it returned %r' % (
+                        q[0], q[1], (real or {}).get('lb', {}).get(q[0], {}).get(q[1]), (prev_real or {}).get('lb', {}).get(q[0], {}).get(q[1]))
+                    for q in qs[:3]]})
             if name == 'Store' and res.get('lost') and not any(g['cause'] == BLOB_CAUSE for g in result['genuine']):
                 # the real storeBlob accepted the record as the transcription does, and TLC says that the serial the
                 # writer named is not the current revision of base \o changes (store() raises ConflictError here)
